@@ -176,9 +176,6 @@ Qed.
 
 (* ---- items (bounds + payload tag) ---- *)
 
-Definition key (x : Z * Z * Z) : Z * Z := (fst (fst x), snd (fst x)).
-Definition tag (x : Z * Z * Z) : Z := snd x.
-
 Lemma inorder_items t : inorder t = map key (items t).
 Proof.
   induction t as [|l IHl lo hi tg mx h r IHr]; [reflexivity|].
